@@ -18,6 +18,7 @@ import (
 	"runtime"
 	"sort"
 	"strings"
+	"sync"
 	"time"
 
 	k8swq "k8s.io/client-go/util/workqueue"
@@ -54,6 +55,10 @@ type qinput struct {
 	// Ties: for an arrival falling on the instant of due internal events, how many of those
 	// happen before it (consumed in order).
 	Ties []int `json:"ties"`
+	// Wrapper: drive the real WorkQueue (New/Start/Add/process) instead of the bare client-go
+	// queue; Fails: which callbacks return an error (consumed by successive hand-overs).
+	Wrapper bool   `json:"wrapper,omitempty"`
+	Fails   []bool `json:"fails,omitempty"`
 }
 
 type wentry struct {
@@ -114,25 +119,31 @@ func (tw *twin) due() (kind string, item int, at int64, ok bool) {
 }
 
 type qrun struct {
-	in     qinput
-	delta  int64
-	l      *limiter
-	vlast  int64
-	vnow   int64
-	fc     *clocktesting.FakeClock
-	base   time.Time
-	q      k8swq.TypedRateLimitingInterface[int]
-	tw     *twin
-	events []qevent
-	obs    []qobs
-	grants [][3]int64 // item, arrival, grant
-	runs   [][2]int64 // item, start
-	lastD  int64
-	stuck  string
+	in        qinput
+	delta     int64
+	l         *limiter
+	vlast     int64
+	vnow      int64
+	fc        *clocktesting.FakeClock
+	base      time.Time
+	q         k8swq.TypedRateLimitingInterface[int]
+	tw        *twin
+	events    []qevent
+	obs       []qobs
+	grants    [][3]int64 // item, arrival, grant
+	runs      [][2]int64 // item, start
+	lastD     int64
+	stuck     string
+	mu        sync.Mutex
+	whenCalls int
+	adds      [][2]int64 // wrapper cases: item, instant of WorkQueue.Add / of a failed callback
 }
 
 // When is the limiter handed to client-go: the real limiter seen from the current virtual instant.
 func (r *qrun) When(item int) time.Duration {
+	r.mu.Lock()
+	defer r.mu.Unlock()
+	r.whenCalls++
 	st := r.l.call(r.vlast, r.vnow)
 	if st.Width > int64(maxWidth) && r.stuck == "" {
 		r.stuck = "clock bracket wider than 200us"
